@@ -581,6 +581,7 @@ class World:
         self.killed = []
         self.hung = []
         self._ignore_pauses = False
+        self.shared_node_hosts = 0  # 0: every batch on its own host; k: batches share k host names
         self.exotic_plan = []  # [{"at": step, "steps": duration, "which": n}] unusual scheduler states (see _exotic_tick)
         self.fs_watch = set()  # basenames whose mutations are recorded as "fs" events
         self.prio = None  # per-thread priorities (by creation ordinal) or None
@@ -901,8 +902,9 @@ class World:
         jid = argv[1]
         self.note("scancel", id=jid, by=vt.proc.name)
         r = self.slurm.get(jid)
-        if r is None:
-            return SyncResult(1, "", "scancel: error: Invalid job id specified\n")
+        if r is None or (not r["visible"] and r["state"] not in ("PENDING", "RUNNING")):
+            # unknown, or finished and already purged from the controller's memory
+            return SyncResult(1, "", f"scancel: error: Kill job error on job id {jid}: Invalid job id specified\n")
         if r["state"] == "PENDING":
             r["state"] = "CANCELLED"
             r["visible"] = False
@@ -1188,8 +1190,10 @@ class World:
         env = self.node_env(jid, rec)
         rec["cpus"] = int(env["SLURM_CPUS_ON_NODE"])
         name = f"node{jid}"
-        self.note("start_batch", id=jid, batch=rec["batch"], cpus=rec["cpus"])
-        vt = self.spawn(name, name, env, lambda: run_cli(exe, args), _command_kind(exe, args), argv=args, batch=jid)
+        # non-exclusive nodes: several batches may share a host name (JADE identifies a submitter by hostname)
+        host = name if not self.shared_node_hosts else f"sharednode{rec['start_ord'] % self.shared_node_hosts}"
+        self.note("start_batch", id=jid, batch=rec["batch"], cpus=rec["cpus"], host=host)
+        vt = self.spawn(name, host, env, lambda: run_cli(exe, args), _command_kind(exe, args), argv=args, batch=jid)
         rec["vt"] = vt
 
     def finish_job(self, job, rc=None):
